@@ -422,6 +422,9 @@ class ExprMixin:
             return View(v.src, v.ch, v.add, v.shift, 32 if v.trunc is None else min(v.trunc, 32))
         if isinstance(v, Bits):
             return v.derive(v.bits[:32])
+        if type(v).__name__ == 'Lin':
+            from .bitlin import Lin
+            return Lin(v.terms, v.const, 32 if v.trunc is None else min(v.trunc, 32))
         raise Unsupported('c_uint32 of {}'.format(v))
 
     def ifexp(self, node, st):
@@ -463,7 +466,7 @@ class ExprMixin:
             if st.lookup.get(v.view.src) != 'hit' and v.default is None:
                 raise Unsupported('int() of a possibly-missing table entry at {}'.format(unparse(node)))
             v = self.as_int_view(v, st, node)
-        if isinstance(v, (bool, int)) or isinstance(v, (View, Bits)):
+        if isinstance(v, (bool, int)) or isinstance(v, (View, Bits)) or type(v).__name__ == 'Lin':
             # int(<int>, base=0) is a TypeError
             if covers('TypeError'):
                 return v, True
@@ -506,6 +509,9 @@ class ExprMixin:
             if op in (ast.Add, ast.Mod) and (isinstance(a, (str, Opaque))):
                 return Opaque('string expression')
             raise Unsupported('arithmetic on an opaque value: {}'.format(unparse(node)))
+        r = self.lin_binop(node, a, b, st)
+        if r is not None:
+            return r
         # the (x ^ s) - s half of a sign extension
         if op is ast.Sub and isinstance(a, XorVal):
             return self.sext_xor(a, b, st, node)
@@ -627,7 +633,7 @@ class ExprMixin:
             raise Unsupported('right shift of {}'.format(unparse(node)))
         if isinstance(a, int):
             return a << b
-        if isinstance(a, View) and a.trunc is None:
+        if isinstance(a, View) and a.trunc is None and a.shift <= 0:
             lo, hi = self.view_range(a, st)
             if lo < 0 or hi >= INF:
                 # (x << b) of a signed operand: stays a view until a mask cuts the field out
@@ -756,6 +762,8 @@ class ExprMixin:
         v = self.as_int_view(v, st, node)
         if isinstance(v, Bits):
             return v
+        if type(v).__name__ == 'Lin':
+            return self.lin_bits(v, None, st, node)
         if isinstance(v, View):
             if v.trunc is not None:
                 return self.view_to_bits_trunc(v, st, node)
